@@ -513,3 +513,101 @@ func TestVerif_C13_preset(t *testing.T) {
 	}
 	s.Finish()
 }
+
+// TestVerif_C13_life: the life cycle of the client-level dumper. Random sequences of the calls a
+// user can make between requests — configure (sync / async), EnableDumpAllAsync, DisableDumpAll,
+// Client.Clone — and then: does the live dumper still deliver what DumpTo is given?
+func TestVerif_C13_life(t *testing.T) {
+	s := verifh.New(t, "C13", "life",
+		"sequences of 1..7 calls on a client, each result the client for the next call: SetCommonDumpOptions{Async false|true}+EnableDumpAll, EnableDumpAllAsync, DisableDumpAll, Client.Clone(); afterwards 30 DumpTo calls (more than the 20-slot queue) go to the live dumper from a goroutine and must all reach the writer, in order; compared with the model's life cycle (lifeRun: every live dumper has a running Start loop, theorem lifecycle_always_started); the first sequences are the fixed shapes [sync, Clone, async], [sync, Clone, EnableDumpAllAsync], [async, Clone, sync, async]; non-trivial = a Clone followed by a change of Async")
+	r := s.Rand()
+	cnt := c13Counter{}
+	fixed := [][]int{{0, 4, 1}, {0, 4, 2}, {1, 4, 0, 1}, {0, 4, 4, 2}, {0, 3, 2, 4, 0, 1}}
+	stuck := 0
+	n := verifh.N(250, 5000)
+	for c := 0; c < n; c++ {
+		var ops []int
+		if c < len(fixed) {
+			ops = fixed[c]
+		} else {
+			for i, k := 0, 1+r.Intn(7); i < k; i++ {
+				ops = append(ops, verifh.Pick(r, []int{0, 1, 2, 3, 4, 4}))
+			}
+		}
+		cl := C()
+		all := []*Client{cl}
+		sink := &c13Log{}
+		for _, op := range ops {
+			switch op {
+			case 0, 1:
+				cl.SetCommonDumpOptions(&DumpOptions{Output: &c13LogWriter{1, sink, false}, RequestHeader: true, Async: op == 1})
+				cl.EnableDumpAll()
+			case 2:
+				if cl.Dump == nil {
+					// keep stdout clean: give the client options with a writer first
+					cl.SetCommonDumpOptions(&DumpOptions{Output: &c13LogWriter{1, sink, false}, RequestHeader: true})
+				}
+				cl.EnableDumpAllAsync()
+			case 3:
+				cl.DisableDumpAll()
+			case 4:
+				cl = cl.Clone()
+				all = append(all, cl)
+			}
+		}
+		ans := "none"
+		afterClone, changed := false, false
+		for _, op := range ops {
+			if op == 4 {
+				afterClone = true
+			} else if afterClone && (op == 1 || op == 2) {
+				changed = true
+			}
+		}
+		if d := cl.Dump; d != nil {
+			log := &c13Log{}
+			done := make(chan struct{})
+			go func() { // blocks for ever if nobody drains a full queue
+				for i := 0; i < 30; i++ {
+					d.DumpTo([]byte{byte('a' + i%26)}, &c13LogWriter{2, log, false})
+				}
+				d.DumpTo([]byte("!"), c13SignalWriter{done})
+			}()
+			wait := time.Second
+			if stuck >= 3 {
+				wait = 20 * time.Millisecond
+			}
+			delivered := 0
+			select {
+			case <-done:
+				got := strings.Join(log.of(2), "")
+				want := ""
+				for i := 0; i < 30; i++ {
+					want += string(rune('a' + i%26))
+				}
+				if got == want {
+					delivered = 1
+				}
+			case <-time.After(wait):
+				stuck++
+			}
+			ans = fmt.Sprintf("async=%d delivers=%d", c13B2i(d.Async()), delivered)
+			cnt.add(s, fmt.Sprintf("async=%d", c13B2i(d.Async())))
+		} else {
+			cnt.add(s, "no-dumper")
+		}
+		for _, x := range all {
+			c13StopDump(x)
+		}
+		if changed {
+			cnt.add(s, "async-changed-after-clone")
+		}
+		s.Case("c13life "+verifh.IntList(ops), ans, true, "", changed, fmt.Sprintf("life ops=%v (0 sync, 1 async, 2 EnableDumpAllAsync, 3 DisableDumpAll, 4 Clone)", ops))
+	}
+	for _, must := range []string{"async=1", "async=0", "no-dumper", "async-changed-after-clone"} {
+		if cnt[must] == 0 {
+			t.Errorf("generator never reached bucket %q", must)
+		}
+	}
+	s.Finish()
+}
